@@ -289,6 +289,15 @@ C14Step ==
      \cup Tag((status \in {"done", "error"} /\ lastStep'.op = "send") => (quiet /\ config' = config /\ queue' = queue),
               "send_after_end")
 
+--------------------------------------------------------------------------
+(* Prop C04 on one driver step *)
+QTypes(q) == [i \in 1..Len(q) |-> q[i].type]
+C04Step ==
+  LET drops == \/ status' # "running" \/ status # "running"
+               \/ \E i \in 1..Len(out') : out'[i].k \in CutKinds \cup {"loop_error"}
+  IN IF lastStep'.op \in {"stop", "wait"} THEN {}
+     ELSE C04Log(out', QTypes(queue), QTypes(queue'), <<>>, drops)
+
 OnS(p, v) == IF p \in PropSetS THEN v ELSE {}
 SProj == [config |-> config, hist |-> hist, status |-> status, ctx |-> ctx, output |-> output,
           queue |-> [i \in 1..Len(queue) |-> queue[i].type], now |-> now, busy |-> busy,
@@ -302,5 +311,6 @@ EmitS == PrintT(ToJson([mi |-> mi, from |-> SProj, step |-> lastStep', to |-> SP
                         prop |-> [C08 |-> OnS("C08", C08Step),
                                   C09 |-> OnS("C09", C09Step),
                                   C14 |-> OnS("C14", C14Step),
+                                  C04 |-> OnS("C04", C04Step),
                                   C01 |-> OnS("C01", Tag(status' \in {"running", "done"} => Legal(config'), "final"))]]))
 =============================================================================
